@@ -336,9 +336,21 @@ def run_one(ck, prog):
                         continue
                     a = ctx.args(cb)
                     im = [z for z in walk_deep(a[0], ctx.prov) if z[0] == "call" and (z[1] or "").endswith("IndexMut::index_mut")]
-                    if len(im) != 1 or not mentions(im[0][2][0], ctx.prov, lambda z: z[0] == "place" and z[1] == arr[1]):
+                    rg = None
+                    if not im:
+                        # the two halves of `msg.split_at_mut(k)`: (.0 = msg[..k], .1 = msg[k..])
+                        for z in walk_deep(a[0], ctx.prov, limit=60):
+                            if z[0] == "field" and isinstance(z[1], tuple) and z[1][0] == "call" and (z[1][1] or "").endswith("::split_at_mut") and len(z[1][2]) == 2 and \
+                                    mentions(z[1][2][0], ctx.prov, lambda w: w[0] == "place" and w[1] == arr[1]) and const_value(z[1][2][1]) is not None and str(z[2]) in ("0", "1"):
+                                k_ = const_value(z[1][2][1])
+                                rg = (0, k_) if str(z[2]) == "0" else (k_, 8)
+                                break
+                        if rg is None:
+                            continue
+                    elif len(im) != 1 or not mentions(im[0][2][0], ctx.prov, lambda z: z[0] == "place" and z[1] == arr[1]):
                         continue
-                    rg = range_of(im[0][2][1], 8)
+                    else:
+                        rg = range_of(im[0][2][1], 8)
                     kind, val = source_kind(a[1])
                     if rg is None or kind is None or rg[1] - rg[0] != 4:
                         continue
